@@ -5,12 +5,23 @@ use crate::codec::Codec;
 use crate::seq::SeqSlice;
 use crate::Bs;
 
+/// Bit offset of a symbol position.
+///
+/// A position whose bit offset does not fit in a `usize` is out of bounds for every sequence. It
+/// must panic rather than wrap around (in builds without overflow checks) and select symbols
+/// from the start of the sequence.
+fn bit_offset<A: Codec>(position: usize) -> usize {
+    position
+        .checked_mul(A::BITS as usize)
+        .expect("index out of bounds")
+}
+
 impl<A: Codec> Index<Range<usize>> for SeqSlice<A> {
     type Output = SeqSlice<A>;
 
     fn index(&self, range: Range<usize>) -> &Self::Output {
-        let s = range.start * A::BITS as usize;
-        let e = range.end * A::BITS as usize;
+        let s = bit_offset::<A>(range.start);
+        let e = bit_offset::<A>(range.end);
         let bs: *const Bs = ptr::from_ref::<Bs>(&self.bs[s..e]);
         unsafe { &*(bs as *const SeqSlice<A>) }
     }
@@ -20,7 +31,7 @@ impl<A: Codec> Index<RangeTo<usize>> for SeqSlice<A> {
     type Output = SeqSlice<A>;
 
     fn index(&self, range: RangeTo<usize>) -> &Self::Output {
-        let e = range.end * A::BITS as usize;
+        let e = bit_offset::<A>(range.end);
         let bs: *const Bs = ptr::from_ref::<Bs>(&self.bs[..e]);
         unsafe { &*(bs as *const SeqSlice<A>) }
     }
@@ -30,7 +41,7 @@ impl<A: Codec> Index<RangeToInclusive<usize>> for SeqSlice<A> {
     type Output = SeqSlice<A>;
 
     fn index(&self, range: RangeToInclusive<usize>) -> &Self::Output {
-        let e = (range.end + 1) * A::BITS as usize;
+        let e = bit_offset::<A>(range.end.checked_add(1).expect("index out of bounds"));
         let bs: *const Bs = ptr::from_ref::<Bs>(&self.bs[..e]);
         unsafe { &*(bs as *const SeqSlice<A>) }
     }
@@ -40,8 +51,8 @@ impl<A: Codec> Index<RangeInclusive<usize>> for SeqSlice<A> {
     type Output = SeqSlice<A>;
 
     fn index(&self, range: RangeInclusive<usize>) -> &Self::Output {
-        let s = range.start() * A::BITS as usize;
-        let e = (range.end() + 1) * A::BITS as usize;
+        let s = bit_offset::<A>(*range.start());
+        let e = bit_offset::<A>(range.end().checked_add(1).expect("index out of bounds"));
 
         let bs: *const Bs = ptr::from_ref::<Bs>(&self.bs[s..e]);
         unsafe { &*(bs as *const SeqSlice<A>) }
@@ -52,7 +63,7 @@ impl<A: Codec> Index<RangeFrom<usize>> for SeqSlice<A> {
     type Output = SeqSlice<A>;
 
     fn index(&self, range: RangeFrom<usize>) -> &Self::Output {
-        let s = range.start * A::BITS as usize;
+        let s = bit_offset::<A>(range.start);
         let bs: *const Bs = ptr::from_ref::<Bs>(&self.bs[s..]);
         unsafe { &*(bs as *const SeqSlice<A>) }
     }
@@ -71,8 +82,8 @@ impl<A: Codec> Index<usize> for SeqSlice<A> {
     type Output = SeqSlice<A>;
 
     fn index(&self, i: usize) -> &Self::Output {
-        let s = i * A::BITS as usize;
-        let e = s + A::BITS as usize;
+        let s = bit_offset::<A>(i);
+        let e = s.checked_add(A::BITS as usize).expect("index out of bounds");
         let bs: *const Bs = ptr::from_ref::<Bs>(&self.bs[s..e]);
         unsafe { &*(bs as *const SeqSlice<A>) }
     }
